@@ -114,7 +114,10 @@ class Translator:
                     self.side.append(e >= 0)
                     self.side.append(z3.Implies(a >= 0, e * e == a))
                 else:
-                    e = _uf(f)(a)
+                    # one real variable per distinct application node (hash-consing already identifies equal
+                    # arguments); weaker than an uninterpreted function, hence sound for `unsat`, and keeps
+                    # the query in pure QF_NRA so that nlsat applies
+                    e = z3.Real(f"__{f}_{n.hid}")
                     if f in ("sin", "cos"):
                         self.side.append(e <= 1)
                         self.side.append(e >= -1)
@@ -136,7 +139,45 @@ class Translator:
             else:
                 raise S.SymError(f"translate: {op}")
             memo[n.hid] = e
+        self._trig_shift_axioms()
         return memo[root.hid]
+
+    def _trig_shift_axioms(self):
+        """instantiated axioms for pairs of sin/cos applications whose arguments differ by m*pi/2"""
+        done = getattr(self, "_trig_done", 0)
+        apps = [(n, e) for n, e in self.apps if n.args[0] in ("sin", "cos")]
+        if len(apps) == done:
+            return
+        self._trig_done = len(apps)
+        for i in range(len(apps)):
+            ni, ei = apps[i]
+            for j in range(i):
+                nj, ej = apps[j]
+                d = ni.args[1] - nj.args[1]
+                if d.op == "c" and d.args[0] == 0:
+                    m2 = 0
+                elif d.lin()[1] == 0 and len(d.lin()[0]) == 1 and S.PI in d.lin()[0] and (d.lin()[0][S.PI] * 2).denominator == 1:
+                    m2 = int(d.lin()[0][S.PI] * 2)  # difference = m2 * pi/2
+                else:
+                    continue
+                fi, fj = ni.args[0], nj.args[0]
+                k = m2 % 4
+                # f_i(x + k*pi/2) in terms of sin x / cos x
+                if fi == fj:
+                    if k == 0:
+                        self.side.append(ei == ej)
+                    elif k == 2:
+                        self.side.append(ei == -ej)
+                else:
+                    # cos(x + pi/2) = -sin x ; cos(x + 3pi/2) = sin x ; sin(x + pi/2) = cos x ; sin(x + 3pi/2) = -cos x
+                    if fi == "cos" and k == 1:
+                        self.side.append(ei == -ej)
+                    elif fi == "cos" and k == 3:
+                        self.side.append(ei == ej)
+                    elif fi == "sin" and k == 1:
+                        self.side.append(ei == ej)
+                    elif fi == "sin" and k == 3:
+                        self.side.append(ei == -ej)
 
 
 def _val_to_fraction(v):
